@@ -182,7 +182,15 @@ func TestC19(t *testing.T) {
 				at := bufSize - 2 + g.Intn(3) // offset at which the boundary line's terminator starts
 				var b strings.Builder
 				ls = ls[:0]
-				for b.Len() < bufSize+2000 {
+				if g.Bool() {
+					// a line longer than two read buffers, then ordinary lines
+					long := strings.Repeat("#", 2*bufSize+g.Range(1, bufSize))
+					ls = append(ls, long)
+					b.WriteString(long + eol)
+					at += b.Len() / bufSize * bufSize
+					r.Count("big_files_with_a_line_longer_than_two_buffers", 1)
+				}
+				for b.Len() < at+2000 {
 					l := gen.GenLine(g)
 					if l == "" {
 						l = "blank"
@@ -218,7 +226,16 @@ func TestC19(t *testing.T) {
 		}
 		store := metrics.NewStore()
 		ctx, cancel := context.WithCancel(context.Background())
-		m, err := mtail.New(ctx, store, mtail.ProgramPath(progDir), mtail.LogPathPatterns(paths...), mtail.OneShot)
+		opts := []mtail.Option{mtail.ProgramPath(progDir), mtail.LogPathPatterns(paths...), mtail.OneShot}
+		switch run % 3 {
+		case 1: // the binary always has an HTTP listener, also in one-shot mode
+			opts = append(opts, mtail.BindUnixSocket(filepath.Join(dir, "http.sock")))
+			r.Count("runs_with_unix_listener", 1)
+		case 2:
+			opts = append(opts, mtail.BindAddress("127.0.0.1", "0"))
+			r.Count("runs_with_tcp_listener", 1)
+		}
+		m, err := mtail.New(ctx, store, opts...)
 		if err != nil {
 			cancel()
 			r.Violation("server-start-failed", map[string]any{"spec": spec, "what": err.Error()})
@@ -232,8 +249,9 @@ func TestC19(t *testing.T) {
 		case <-time.After(60*time.Second + 3*slowRuns[run]):
 			d := dump()
 			cancel()
-			r.Violation("run-did-not-terminate", map[string]any{"spec": spec, "what": "Server.Run did not return within 60s in one-shot mode", "goroutines": d})
-			continue
+			r.Violation("run-did-not-terminate", map[string]any{"spec": spec, "what": "Server.Run did not return within 60s in one-shot mode", "listener": []string{"none", "unix socket", "tcp"}[run%3], "goroutines": d})
+			stall.Store(0)
+			return // the server of this run is still alive: no further runs in this process
 		}
 		cancel()
 		what := ""
